@@ -15,6 +15,7 @@ pub struct LzmaBuilt {
     pub expect: Vec<u8>,
     pub marker: bool,
     pub trace: Vec<SymRec>,
+    pub ps: gen::ProgStats,
 }
 
 impl LzmaBuilt {
@@ -51,7 +52,8 @@ pub fn gen_lzma(t: &mut Tape, marker: u64, max_target: u64) -> LzmaBuilt {
     let cfg = gen::draw_cfg(t);
     let target = gen::draw_target_len(t, dict).min(max_target);
     let mut enc = RefEnc::new(props, dict);
-    gen::gen_program(t, &cfg, &mut enc, target, 6000);
+    let mut ps = gen::ProgStats::default();
+    gen::gen_program(t, &cfg, &mut enc, target, 6000, &mut ps);
     let marker = match marker {
         1 => true,
         2 => false,
@@ -69,6 +71,7 @@ pub fn gen_lzma(t: &mut Tape, marker: u64, max_target: u64) -> LzmaBuilt {
         expect: std::mem::take(&mut enc.model.out),
         marker,
         trace: std::mem::take(&mut enc.trace),
+        ps,
     }
 }
 
@@ -84,7 +87,8 @@ pub fn gen_lzma_raw_dict(t: &mut Tape, dict: u64, marker: u64, max_target: u64) 
     }
     .min(max_target);
     let mut enc = RefEnc::new(props, dict);
-    gen::gen_program(t, &cfg, &mut enc, target, 6000);
+    let mut ps = gen::ProgStats::default();
+    gen::gen_program(t, &cfg, &mut enc, target, 6000, &mut ps);
     let marker = match marker {
         1 => true,
         2 => false,
@@ -102,10 +106,12 @@ pub fn gen_lzma_raw_dict(t: &mut Tape, dict: u64, marker: u64, max_target: u64) 
         expect: std::mem::take(&mut enc.model.out),
         marker,
         trace: std::mem::take(&mut enc.trace),
+        ps,
     }
 }
 
 pub struct Lzma2Built {
+    pub ps: gen::ProgStats,
     pub bytes: Vec<u8>,
     pub expect: Vec<u8>,
     pub chunks: Vec<ChunkInfo>,
@@ -129,6 +135,7 @@ pub fn gen_lzma2(t: &mut Tape, max_total: u64, strict_order: bool) -> Lzma2Built
     let mut props_set = false;
     let mut total = 0u64;
     let cfg = gen::draw_cfg(t);
+    let mut ps = gen::ProgStats::default();
     for _ in 0..n_chunks {
         if total >= max_total {
             break;
@@ -206,7 +213,7 @@ pub fn gen_lzma2(t: &mut Tape, max_total: u64, strict_order: bool) -> Lzma2Built
                     }
                 }
             } else {
-                gen::gen_program(t, &cfg, &mut w.enc, target, 6000);
+                gen::gen_program(t, &cfg, &mut w.enc, target, 6000, &mut ps);
                 if w.enc.model.out.len() as u64 == w_start(&w) {
                     let _ = w.enc.encode(Sym::Lit(t.byte()));
                 }
@@ -230,6 +237,7 @@ pub fn gen_lzma2(t: &mut Tape, max_total: u64, strict_order: bool) -> Lzma2Built
     }
     w.end();
     Lzma2Built {
+        ps,
         bytes: std::mem::take(&mut w.bytes),
         expect: std::mem::take(&mut w.enc.model.out),
         chunks: std::mem::take(&mut w.chunks),
